@@ -118,6 +118,9 @@ func (c *Ctx) ltxPublication(only ...string) {
 		// P6: state advance only after dir-sync
 		if s.advance != nil {
 			c.BeforeFrom(k+"/P6-advance-after-durable", s.fn, create, s.advance, dsync, 1, "in-memory state (position, size, WAL bookkeeping, journal invalidation, apply) advances only after the directory sync", "the position would name a transaction file that a crash can still lose")
+			if s.fn != "litefs.(*DB).CommitJournal" { // CommitJournal invalidates a journal without a valid header before (and instead of) capturing anything
+				c.Before(k+"/P6-no-advance-before-create", s.fn, s.advance, create, 1, "... and never before the temporary file was created (an advance hoisted in front of the whole protocol)", "the in-memory state would run ahead of the file whenever a later step fails")
+			}
 		}
 	}
 }
